@@ -12,7 +12,7 @@ def sh(cmd, cwd=None, env=None):
     return r.returncode, r.stdout
 diff = os.path.join(wt, f"mutation{i}.diff")
 demo_test = os.path.join(wt, "tests", f"demo{i}.rs")
-demo_cmd = f"cargo test --offline --test demo{i}" if os.path.exists(demo_test) else None
+demo_cmd = f"cargo test --offline {os.environ.get('SEEDED_DEMO_FLAGS', '')} --test demo{i}" if os.path.exists(demo_test) else None
 if demo_cmd is None:
     # demo directory with its own instructions: look for a run.sh
     cands = glob.glob(os.path.join(wt, f"demo{i}", "run.sh"))
